@@ -54,7 +54,8 @@ pub fn build(shape: usize, consolidate: bool) -> World {
             let d = xot.new_document_with_element(a).unwrap();
             let t1 = xot.new_text(&payload("t1"));
             let b = xot.new_element(name_b);
-            let t2 = xot.new_text(&payload("t2"));
+            // the second text may be empty (new_text("") is allowed)
+            let t2 = if sym::choose("t2len", 2) == 0 { xot.new_text("") } else { xot.new_text(&payload("t2")) };
             xot.append(a, t1).unwrap();
             xot.append(a, b).unwrap();
             xot.append(a, t2).unwrap();
@@ -90,7 +91,9 @@ pub fn build(shape: usize, consolidate: bool) -> World {
             let t2 = xot.new_text(&payload("t2"));
             xot.append(b, t2).unwrap();
             let t3 = xot.new_text(&payload("t3"));
-            nodes.extend([d1, a, t1, d2, b, t2, t3]);
+            // and a document without any child
+            let d3 = xot.new_document();
+            nodes.extend([d1, a, t1, d2, b, t2, t3, d3]);
         }
         3 => {
             // fragment: text, element, text directly under a document; unattached PI
@@ -133,7 +136,7 @@ pub fn build(shape: usize, consolidate: bool) -> World {
             nodes.extend([a, n2, b, t, x3]);
         }
         _ => {
-            // text - element - text - element under an element with an attribute
+            // text - element - text - element - element under an element with an attribute
             let a = xot.new_element(name_a);
             xot.set_attribute(a, attr_x, payload("v1"));
             let t1 = xot.new_text(&payload("t1"));
@@ -144,8 +147,10 @@ pub fn build(shape: usize, consolidate: bool) -> World {
             xot.append(a, b).unwrap();
             xot.append(a, t2).unwrap();
             xot.append(a, c).unwrap();
+            let e = xot.new_element(name_b);
+            xot.append(a, e).unwrap();
             let x1 = xot.attributes(a).nodes().next().unwrap();
-            nodes.extend([a, x1, t1, b, t2, c]);
+            nodes.extend([a, x1, t1, b, t2, c, e]);
         }
     }
     World { xot, nodes, name_a, name_b, name_w, attr_x, attr_y, pfx_p, pfx_q, ns_1, ns_2, consolidated: consolidate }
